@@ -14,14 +14,15 @@ ScaleNum(t) == ISqrtFloor(Abs(t.m[1] * t.m[4] - t.m[2] * t.m[3]))
 Check ==
   LET e == Rec[i] IN
   IF e.outcome # "ok" THEN PrintT(<<"BAD", i, e.id, "panic">>)
-  ELSE LET t == [m |-> e.ctm.m, mden |-> e.ctm.mden]
-           fs == FineSubpaths(e.ops, t, e.den)
-           hw == (e.style.width * FU * ScaleNum(t)) \div (2 * e.den * t.mden)
+  ELSE LET quant == "fsubs" \in DOMAIN e      \* outline and half width supplied by the harness's abstraction function
+           t == IF quant THEN [m |-> <<1, 0, 0, 1, 0, 0>>, mden |-> 1] ELSE [m |-> e.ctm.m, mden |-> e.ctm.mden]
+           fs == IF quant THEN [subs |-> e.fsubs, eps |-> e.feps + e.fhw_slack] ELSE FineSubpaths(e.ops, t, e.den)
+           hw == IF quant THEN e.fhw ELSE (e.style.width * FU * ScaleNum(t)) \div (2 * e.den * t.mden)
            cls == [k \in 1..(e.w * e.h) |-> ClassifyTube(fs, hw, e.style.cap, FU, (k - 1) % e.w, (k - 1) \div e.w)]
            badin == {k \in 1..(e.w * e.h) : cls[k] = "in" /\ e.pix[k] # White}
            badout == {k \in 1..(e.w * e.h) : cls[k] = "out" /\ e.pix[k] # Zero}
            nin == Cardinality({k \in 1..(e.w * e.h) : cls[k] = "in"})
-       IN IF ~DevExactFU(t, e.den) \/ e.style.join # "Round" THEN PrintT(<<"SKIP", i, e.id>>)
+       IN IF (~quant /\ ~DevExactFU(t, e.den)) \/ e.style.join # "Round" THEN PrintT(<<"SKIP", i, e.id>>)
           ELSE IF badin # {} \/ badout # {} THEN PrintT(<<"BAD", i, e.id, badin, badout>>)
           ELSE (nin = 0) \/ PrintT(<<"NT", i, nin>>)
 =============================================================================
